@@ -207,6 +207,7 @@ Section GC.
 Variable lstat_first : bool.
 Variable cancelled : bool.
 Variable old : path -> bool.   (* the entry at this PHYSICAL path was last accessed longer ago than the threshold *)
+Variable ord : path -> list name -> list name.   (* the order in which the entries of a directory get processed *)
 
 (* RemoveWithContext = removal without exclusion patterns *)
 Definition remove0 (fuel : nat) (s : fsys) (p : path) : fsys * res :=
@@ -220,8 +221,9 @@ Definition gc_file (fuel : nat) (s : fsys) (p : path) : fsys * res :=
   | Some q => if old q then remove0 fuel s p else (s, Ok)
   end.
 
-(* the children of garbageCollectDir: collected by Parallelise, their errors are dropped.  Modelled in sequence (see
-   gc_order_irrelevant in Props.v); running out of fuel is not an error of the code but the model's own mark of
+(* the children of garbageCollectDir: collected by Parallelise (one goroutine each), their errors are dropped.
+   Modelled in sequence, in an ARBITRARY order [ord] (the theorems hold for every order; interleavings below the
+   granularity of one entry are not modelled); running out of fuel is not an error of the code but the model's own mark of
    non-termination, so it is the one thing that is NOT dropped. *)
 Fixpoint gc_children (g : fsys -> path -> fsys * res) (s : fsys) (p : path) (ns : list name) : fsys * bool :=
   match ns with
@@ -246,7 +248,7 @@ Fixpoint gc (fuel : nat) (s : fsys) (p : path) (deletePath : bool) {struct fuel}
           match ls (fun _ => false) s p with
           | None => (s, Err EInvalid)
           | Some ns =>
-              match gc_children (fun a q => gc f a q true) s p ns with
+              match gc_children (fun a q => gc f a q true) s p (ord p ns) with
               | (s1, true) => (s1, Err EFuel)
               | (s1, false) => if is_empty s1 p && deletePath then remove0 f s1 p else (s1, Ok)
               end
@@ -262,6 +264,16 @@ End GC.
 (* ---- vocabulary of the theorems ---- *)
 
 Definition under (p q : path) : Prop := exists r, q = p ++ r.       (* q is p or lies below p *)
+
+Fixpoint is_prefix (p q : path) : bool :=
+  match p, q with
+  | [], _ => true
+  | a :: p', b :: q' => name_eqb a b && is_prefix p' q'
+  | _ :: _, [] => false
+  end.
+
+(* number of entries at or below p *)
+Definition size_below (s : fsys) (p : path) : nat := length (filter (fun ke => is_prefix p (fst ke)) s).
 
 (* every proper prefix of p is a real directory: p is a physical path *)
 Definition dirs_above (s : fsys) (p : path) : Prop :=
@@ -332,9 +344,21 @@ Definition run_case (c : case) : fsys * res :=
   | OpRm => remove_top en ep true (c_cancelled c) fuel (c_before c) (c_root c)
   | OpClean => clean_dir en ep true (c_cancelled c) fuel (c_before c) (c_root c)
   | OpGc => garbage_collect true (c_cancelled c)
-              (fun q => c_all_old c || existsb (path_eqb q) (c_old c)) fuel (c_before c) (c_root c)
+              (fun q => c_all_old c || existsb (path_eqb q) (c_old c)) (fun _ ns => ns) fuel (c_before c) (c_root c)
   end.
 
+(* the same call with the entries of every directory processed in the opposite order *)
+Definition run_case_rev (c : case) : fsys * res :=
+  match c_op c with
+  | OpGc => garbage_collect true (c_cancelled c)
+              (fun q => c_all_old c || existsb (path_eqb q) (c_old c)) (fun _ ns => rev ns)
+              (S (S (length (c_before c)))) (c_before c) (c_root c)
+  | _ => run_case c
+  end.
+
+Definition agrees (c : case) (o : fsys * res) : bool :=
+  let '(s', r) := o in
+  fs_eqb s' (c_after c) && Bool.eqb (match r with Ok => true | Err _ => false end) (c_ok c).
+
 Definition check_case (c : case) : bool :=
-  let '(s', r) := run_case c in
-  c_rest_same c && fs_eqb s' (c_after c) && Bool.eqb (match r with Ok => true | Err _ => false end) (c_ok c).
+  c_rest_same c && agrees c (run_case c) && agrees c (run_case_rev c).
